@@ -121,7 +121,7 @@ CHECKS = {
             "params": {"quick": {"STEPS": 3, "PEERS": 2, "FAULTS": 2}, "thorough": {"STEPS": 3, "PEERS": 3, "FAULTS": 3}},
             "max_paths": {"quick": 60000, "thorough": 800000},
             "timeout": {"quick": "10m", "thorough": "90m"},
-            "covers": {"VerifSysHeal": ["write", "cut", "heal", "restart", "restart-wiped", "healed"]},
+            "covers": {"VerifSysHeal": ["write", "cut", "heal", "restart", "restart-wiped", "store-closed", "store-reopened", "healed"]},
         }, {
             "pkg": ODB, "funcs": ["VerifSysOpenRace"],
             "params": {"quick": {"P": 1}, "thorough": {"P": 2}},
@@ -135,7 +135,7 @@ CHECKS = {
             "final phase: writes stop; each side observes the other joining its topic (EventPubSubJoin on the watcher channel); the payload each real exchangeHeads sends on the direct channel is decoded and handed to the other store's Sync, as baseorbitdb's handler does; run to quiescence",
             "oracle: both replicas hold every acknowledged write and list identical ordered logs",
             "open race (VerifSysOpenRace): a peer opens the database while a replica holding 1..2 acknowledged writes is connected and idle; the heads that replica sends on seeing the join may arrive before Open has returned: every schedule of the opening thread and the threads it starts with at most P preemptions; the opened replica must hold every acknowledged write at quiescence",
-            "system harness (VerifSysHeal): PEERS real orbitDB INSTANCES (newOrbitDB, Create/Open, createStore, monitorDirectChannel, handleEventExchangeHeads, the stores' storeListener / pubSubChanListener / exchangeHeads) wired by the real code over a simulated network (pubsub with join/leave notifications and fan-out, pairwise direct channel emitting on the receiver's bus, link cuts); fault plan of STEPS steps: write on any peer (each publication towards each subscriber delivered / lost / duplicated), cut or heal a link, restart a peer over its directory, or restart a peer that has not written with its storage lost (in-memory cache); final phase: every link re-established; blocks of a connected peer are fetchable",
+            "system harness (VerifSysHeal): PEERS real orbitDB INSTANCES (newOrbitDB, Create/Open, createStore, monitorDirectChannel, handleEventExchangeHeads, the stores' storeListener / pubSubChanListener / exchangeHeads) wired by the real code over a simulated network (pubsub with join/leave notifications and fan-out, pairwise direct channel emitting on the receiver's bus, link cuts); fault plan of STEPS steps: write on any peer (each publication towards each subscriber delivered / lost / duplicated), cut or heal a link, restart a peer over its directory, restart a peer that has not written with its storage lost (in-memory cache), close a peer's replica of the database (the store only) and reopen it later on the same instance; final phase: closed replicas reopened, every link re-established; blocks of a connected peer are fetchable",
         ],
         "outside": ["more than PEERS replicas", "reordered announcements (delivery is order-insensitive by C01)", "liveness of real pubsub / bitswap: the claim is 'given the join notifications and fetchable blocks, one exchange suffices'", "composition to >2 replicas is a paper argument"],
     },
@@ -281,6 +281,10 @@ CHECKS = {
             "params": {"quick": {"N": 20}, "thorough": {"N": 60}},
             "covers": {"VerifC16LegacyMulti": ["drained", "unsubscribed"]},
         }, {
+            "pkg": BS, "funcs": ["VerifC16Backfill"],
+            "params": {"quick": {"T": 4}, "thorough": {"T": 6}},
+            "covers": {"VerifC16Backfill": ["backfilled"]},
+        }, {
             "pkg": KV, "funcs": ["VerifC16WriteDuringMerge"],
             "params": {"quick": {"N": 2}, "thorough": {"N": 4}},
             "max_paths": {"quick": 60000, "thorough": 400000},
@@ -292,6 +296,7 @@ CHECKS = {
             "clause (c) several subscribers (VerifC16LegacyMulti): two Subscribe channels, a third cancelled half-way and the shared GlobalChannel, with prompt / stalled / quitting readers; each reader that keeps reading receives the N events in order exactly once; cancelled and unsubscribed channels close and no buffering goroutine is left",
             "clause (a) under concurrency: a key-value store (its view is a separate map, not an alias of the log) replicates a batch of N remote entries through the real Sync path while a local Put starts at ANY visible operation (lock, unlock, channel operation, go, cache/block write) of any goroutine involved and runs until it blocks; the bus hook queries the store with Get on every EventWrite / EventReplicated",
             "clause (a) state-before-event: every emission on the store's bus is observed synchronously in the emitting goroutine (a wrapper around the bus); on EventWrite the log and the view already hold the entry and there is exactly one write event per successful write; on EventReplicated all announced entries are in the log and the merged heads are already persisted",
+            "batches that do not move the heads (VerifC16Backfill): a store loaded with a limit receives, by Sync or LoadMoreFrom, the newest entry below its window; the merged older history must be announced by replicated events, each entry exactly once, with the entries already in the log when the event is emitted",
             "slow reader of replicated events: every emitted EventReplicated is retained and read only at the end of the history; it must still announce exactly the batch it announced when emitted, and every merged remote entry is announced by exactly one event",
         ],
         "outside": ["clause (b): ordering/losslessness of the real libp2p eventbus (the stub bus mirrors its blocking per-sink FIFO)", "clause (c) beyond P preemptions / N events; data races below visible-operation granularity"],
